@@ -6,7 +6,6 @@
 //! label: P | P:<idx>~ev~ev..   one poll_next call; evs run inside the idx-th stream poll of that call
 //!        I<k> | R<k> | A<k>.<x> | C<k> | W<k> (fire and consume k's kept waker) | w<k> (fire, keep)
 //!        D   environment fires every owed waker, then an executor polls only when woken, to quiescence
-use crate::pipes::count_waker;
 use futures::Stream;
 use parking_lot::Mutex;
 use std::collections::{HashMap, VecDeque};
@@ -15,6 +14,22 @@ use std::sync::atomic::{AtomicUsize, Ordering};
 use std::sync::Arc;
 use std::task::{Context, Poll, Waker};
 use zeromq::__verif::{FairQueueHandle, FairQueueProbe};
+
+struct LatestWakes {
+    current: AtomicUsize,
+    wakes: AtomicUsize,
+}
+struct GenWaker {
+    gen: usize,
+    all: Arc<LatestWakes>,
+}
+impl futures::task::ArcWake for GenWaker {
+    fn wake_by_ref(arc_self: &Arc<Self>) {
+        if arc_self.gen == arc_self.all.current.load(Ordering::SeqCst) {
+            arc_self.all.wakes.fetch_add(1, Ordering::SeqCst);
+        }
+    }
+}
 
 #[derive(Default)]
 struct SState {
@@ -128,11 +143,16 @@ pub fn run(args: &[&str]) -> String {
     });
     let mut probe: FairQueueProbe<SStream, u64> = FairQueueProbe::new(block);
     *sh.handle.lock() = Some(probe.handle());
-    let (cw, waker) = count_waker();
+    // Every poll_next call comes with its own waker (as if recv were called from a new task each
+    // time); only invocations of the waker of the MOST RECENT call count as waking the receiver.
+    let cw = Arc::new(LatestWakes { current: AtomicUsize::new(0), wakes: AtomicUsize::new(0) });
     let mut out = Vec::new();
+    let cw2 = cw.clone();
     let mut poll_once = |probe: &mut FairQueueProbe<SStream, u64>, idx: Option<usize>, evs: Vec<Ev>| -> String {
         sh.polls.store(0, Ordering::SeqCst);
         *sh.window.lock() = idx.map(|i| (i, evs));
+        let gen = cw2.current.fetch_add(1, Ordering::SeqCst) + 1;
+        let waker = futures::task::waker(Arc::new(GenWaker { gen, all: cw2.clone() }));
         let mut cx = Context::from_waker(&waker);
         let r = match probe.poll_next(&mut cx) {
             Poll::Pending => "Pend".to_string(),
@@ -181,10 +201,10 @@ pub fn run(args: &[&str]) -> String {
                     res.push("spin".to_string());
                     break;
                 }
-                if last_pend && cw.0.load(Ordering::SeqCst) == last_w0 {
+                if last_pend && cw.wakes.load(Ordering::SeqCst) == last_w0 {
                     break;
                 }
-                last_w0 = cw.0.load(Ordering::SeqCst);
+                last_w0 = cw.wakes.load(Ordering::SeqCst);
                 let r = poll_once(&mut probe, None, vec![]);
                 last_pend = r == "Pend";
                 let stop = r == "None";
@@ -193,7 +213,7 @@ pub fn run(args: &[&str]) -> String {
                     break;
                 }
             }
-            out.push(format!("D[{}]@{}", res.join(","), cw.0.load(Ordering::SeqCst)));
+            out.push(format!("D[{}]@{}", res.join(","), cw.wakes.load(Ordering::SeqCst)));
             continue;
         }
         if lab.starts_with('P') {
@@ -205,13 +225,13 @@ pub fn run(args: &[&str]) -> String {
                 idx = Some(it.next().unwrap().parse::<usize>().unwrap());
                 evs = it.map(parse_ev).collect();
             }
-            last_w0 = cw.0.load(Ordering::SeqCst);
+            last_w0 = cw.wakes.load(Ordering::SeqCst);
             let r = poll_once(&mut probe, idx, evs);
             last_pend = r == "Pend";
-            out.push(format!("{}@{}", r, cw.0.load(Ordering::SeqCst)));
+            out.push(format!("{}@{}", r, cw.wakes.load(Ordering::SeqCst)));
         } else {
             apply(&sh, &parse_ev(lab));
-            out.push(format!("@{}", cw.0.load(Ordering::SeqCst)));
+            out.push(format!("@{}", cw.wakes.load(Ordering::SeqCst)));
         }
     }
     // what is left in streams that were never removed and are still wanted
